@@ -108,7 +108,8 @@ EZMP4_KEYS = (sorted(R.EASYMP4_KEYCLASS) + ["Title", "TITLE", "BPM", "TrackNumbe
 EZMP4_FAMILIES = [[k for k in EZMP4_KEYS if k.lower().startswith(("title", "ti\u0307", "\uff54"))],
                   [k for k in EZMP4_KEYS if k.lower().startswith(("tracknumber", "trac\u212a", "bpm", "b_p"))],
                   [k for k in EZMP4_KEYS if k.lower().startswith("musicbrainz_trackid")]]
-EZMP4_STR = ["a", "b", "3", "3/4", "3/0", "70000", "-5", "70000/1", "a/b", "1/2/3", " 7 ", "", "3.5", "\xe9", "3/"]
+EZMP4_STR = ["a", "b", "3", "3/4", "3/0", "70000", "-5", "70000/1", "a/b", "1/2/3", " 7 ", "", "3.5", "\xe9", "3/", "nan", "1e3",
+             "\u0663/4", " ", "/"]
 
 
 def ez_vals(strs, rng):
